@@ -5,10 +5,14 @@
    20 eq/similar (both argument orders)  21 eq/similar over f64 with NaN elements (every form,
    same-object operands included; only booleans are compared).
    30 sub term ..: the view methods / equality / similarity over ANY C02 view term as the source
-   (sub 1 reorder 2 transpose 8 map 9 map_with_index 12/13 elementwise(_with_index) 14 first 20 eq/similar).  `form` 0 = Tensor method, 1 = TensorView method over a
+   (sub 1 reorder 2 transpose 8 map 9 map_with_index 12/13 elementwise(_with_index) 14 first 20 eq/similar;
+   sub 10 map_mut / 11 map_mut_with_index THROUGH the view, every leaf dumped afterwards).
+   22 src dims: the four forms of reorder and of transpose on one tensor (allocating, in-place, lazy
+   view, TensorView method), each reported separately against its own transcription.  `form` 0 = Tensor method, 1 = TensorView method over a
    source term ((0 shape data) | (1 src names) reverse | (2 src ranges) range | (3 src names)
    access | (4 src names) transpose | (5 src masks) mask | (6 src names) rename).  See coq/theories/Run/RunC13.v for the exact layout."""
-import itertools, random
+import hashlib, itertools, os, random, re
+from tools import vlib
 from tools.vlib import sx
 from tools.props.c09 import elements, tshape, tbase, src_shape, random_view
 
@@ -93,6 +97,13 @@ def gen(tier, rng):
         if D >= 2:
             dup = list(names); dup[0] = dup[1]
             yield sx([13, 1, 0, base, dup]); yield sx([13, 3, base, dup]); yield sx([13, 4, base, dup])
+    # the four forms (allocating / in-place / lazy view / TensorView method) of reorder and transpose
+    # on one tensor, EVERY permutation, for the shape classes around the in-place guard and the
+    # by-name shape rule: D = 3, 4 with (i) all lengths distinct, (ii) all equal (cubes 2^3, 3^3,
+    # 2^4 - the shapes a widened `is_square` guard would send down the swap loop), (iii) exactly two
+    # equal; D = 2 square / non-square; D <= 1
+    for c in four_form_cases(rng, quick):
+        yield c
     # square 2-D emphasised: larger sizes, arbitrary names and data
     for n in range(1, 9 if quick else 13):
         for _ in range(3):
@@ -300,6 +311,188 @@ def gen(tier, rng):
         yield c
 
 
+# ---------------------------------------------------------------------------------------------
+# the guard of Tensor::reorder_mut's in-place branch, re-read from the Rust source on every run
+class GuardNotTranslated(Exception):
+    pass
+
+
+def reorder_mut_guard_source(repo):
+    """the text between `if` and `{` of the first `if` in the body of Tensor::reorder_mut"""
+    text = open(os.path.join(repo, "src", "tensors", "mod.rs")).read()
+    i = text.find("pub fn reorder_mut(")
+    if i < 0:
+        raise GuardNotTranslated("pub fn reorder_mut( not found in src/tensors/mod.rs")
+    body = text.find("{", i)
+    m = re.compile(r"\bif\b").search(text, body)
+    nxt = re.compile(r"\b(let|for|while|match|return)\b").search(text, body)
+    if not m:
+        raise GuardNotTranslated("no `if` in reorder_mut")
+    # only `use` items may precede the branch
+    between = re.sub(r"//[^\n]*", "", text[body + 1:m.start()])
+    between = re.sub(r"use\s+[\w:]+\s*;", "", between).strip()
+    if between:
+        raise GuardNotTranslated("statements before the branch of reorder_mut: %r" % between[:120])
+    end = text.find("{", m.end())
+    return text[m.end():end].strip()
+
+
+def guard_to_gallina(cond):
+    """a condition over `D` and `is_square(&self.shape)` with == != < <= > >= && || ! ( ) -> Gallina
+    over (D : nat) (sh : shape); anything else is NOT translated"""
+    toks = re.findall(r"[A-Za-z_][A-Za-z_0-9]*(?:::[A-Za-z_][A-Za-z_0-9]*)*|\d+|==|!=|>=|<=|&&|\|\||[()<>!&.]", cond)
+    if "".join(toks) != re.sub(r"\s+", "", cond):
+        raise GuardNotTranslated("unexpected token in %r" % cond)
+    pos = [0]
+
+    def peek():
+        return toks[pos[0]] if pos[0] < len(toks) else None
+
+    def eat(t=None):
+        x = peek()
+        if x is None or (t is not None and x != t):
+            raise GuardNotTranslated("expected %r at token %d of %r" % (t, pos[0], cond))
+        pos[0] += 1
+        return x
+
+    def atom():
+        x = peek()
+        if x == "(":
+            eat("("); e = disj(); eat(")")
+            return "(%s)" % e
+        if x == "!":
+            eat("!")
+            return "(negb %s)" % atom()
+        if x == "D":
+            eat("D"); op = eat(); k = eat()
+            if not k.isdigit():
+                raise GuardNotTranslated("D compared with %r" % k)
+            table = {"==": "(Nat.eqb D %s)", "!=": "(negb (Nat.eqb D %s))", ">=": "(Nat.leb %s D)",
+                     "<=": "(Nat.leb D %s)", ">": "(Nat.ltb %s D)", "<": "(Nat.ltb D %s)"}
+            if op not in table:
+                raise GuardNotTranslated("operator %r" % op)
+            return table[op] % k
+        if x is not None and x.split("::")[-1] == "is_square":
+            eat(); eat("("); eat("&"); eat("self"); eat("."); eat("shape"); eat(")")
+            return "(is_square sh)"
+        raise GuardNotTranslated("cannot translate %r in %r" % (x, cond))
+
+    def conj():
+        e = atom()
+        while peek() == "&&":
+            eat("&&"); e = "(%s && %s)" % (e, atom())
+        return e
+
+    def disj():
+        e = conj()
+        while peek() == "||":
+            eat("||"); e = "(%s || %s)" % (e, conj())
+        return e
+
+    e = disj()
+    if peek() is not None:
+        raise GuardNotTranslated("trailing tokens in %r" % cond)
+    return e
+
+
+GUARD_TEMPLATE = """(* GENERATED by tools/props/c13.py from %(repo)s/src/tensors/mod.rs, Tensor::reorder_mut:
+   `if %(cond)s {`  -- do not edit *)
+From Coq Require Import List Arith Bool NArith.
+From EasyML Require Import Model.Shape Model.Transform Proofs.C13ReorderP.
+Open Scope bool_scope.
+Definition gen_reorder_mut_guard (D : nat) (sh : shape) : bool := %(gallina)s.
+(* GENERATED-EQUIVALENCE gen_reorder_mut_guard_is_model *)
+Lemma gen_reorder_mut_guard_is_model : forall sh : shape,
+  gen_reorder_mut_guard (length sh) sh = reorder_mut_guard sh.
+Proof. intros sh. reflexivity. Qed.
+(* hence the in-place swap loop is entered only for two dimensions (Proofs/C13ReorderP.v) *)
+Lemma gen_square_path_requires_two_dimensions : forall sh : shape,
+  gen_reorder_mut_guard (length sh) sh = true -> length sh = 2%%nat.
+Proof. intros sh H. rewrite gen_reorder_mut_guard_is_model in H. exact (square_path_requires_two_dimensions sh H). Qed.
+"""
+
+
+def check_reorder_mut_guard(cov):
+    """Re-reads the guard from <REPO>, renders it in Gallina into a PRIVATE directory and compiles the
+    equivalence with the model's guard against the development's .vo files.  Returns None (ok / skipped)
+    or a failure payload."""
+    info = cov.setdefault("reorder_mut_guard", {"repo": vlib.REPO})
+    try:
+        cond = reorder_mut_guard_source(vlib.REPO)
+        info["source"] = cond
+        gallina = guard_to_gallina(cond)
+        info["gallina"] = gallina
+    except (GuardNotTranslated, OSError) as e:
+        info["verdict"] = "not translated"
+        return {"broken_lemmas": ["gen_reorder_mut_guard_is_model"], "not_translated": str(e)}
+    vo = os.path.join(vlib.COQ, "theories", "Proofs", "C13ReorderP.vo")
+    if not os.path.exists(vo):
+        info["verdict"] = "skipped (Proofs/C13ReorderP.vo not built; run without --no-proof once)"
+        return None
+    d = os.path.join(vlib.BUILD, "c13-guard-" + hashlib.sha1(vlib.REPO.encode()).hexdigest()[:6])
+    os.makedirs(d, exist_ok=True)
+    open(os.path.join(d, "C13Guard.v"), "w").write(GUARD_TEMPLATE % {"repo": vlib.REPO, "cond": cond, "gallina": gallina})
+    with vlib.Lock("coq.lock"):
+        rc, out = vlib.sh("timeout 120 coqc -q -Q %s EasyML -Q . C13Gen C13Guard.v 2>&1"
+                          % os.path.join(vlib.COQ, "theories"), cwd=d, timeout=150)
+    if rc == 0:
+        info["verdict"] = "generated guard = model guard (gen_reorder_mut_guard_is_model)"
+        return None
+    info["verdict"] = "GENERATED-EQUIVALENCE-BROKEN gen_reorder_mut_guard_is_model"
+    return {"broken_lemmas": ["gen_reorder_mut_guard_is_model"], "source_guard": cond, "gallina": gallina,
+            "model_guard": "Nat.eqb (length sh) 2 && is_square sh", "coqc_log_tail": out[-1500:]}
+
+
+def extra(tier, seed, cov):
+    """the guard of reorder_mut's in-place branch in the source still equals the model's guard"""
+    fail = check_reorder_mut_guard(cov)
+    if fail:
+        return [("generated-equivalence",
+                 {"property": "C13", "kind": "proof layer: the guard of Tensor::reorder_mut's in-place branch, re-read "
+                  "from the Rust source, no longer equals the model's guard (D == 2 && is_square): "
+                  "GENERATED-EQUIVALENCE-BROKEN gen_reorder_mut_guard_is_model", "repo": vlib.REPO, **fail})]
+    return []
+
+
+def four_form_cases(rng, quick):
+    classes = [
+        [], [1], [3],
+        [1, 1], [2, 2], [3, 3], [4, 4], [2, 3], [3, 2], [1, 4], [4, 1],
+        # D = 3
+        [2, 3, 4], [4, 2, 3], [1, 2, 3], [3, 1, 2],          # all distinct
+        [2, 2, 2], [3, 3, 3], [1, 1, 1],                      # cubes
+        [2, 2, 3], [2, 3, 2], [3, 2, 2], [3, 3, 2], [1, 2, 2], [2, 1, 1],   # two equal
+        # D = 4
+        [2, 3, 4, 5], [5, 2, 4, 3], [1, 2, 3, 4],            # all distinct
+        [2, 2, 2, 2], [1, 1, 1, 1],                           # hypercubes
+        [2, 2, 3, 4], [2, 3, 2, 4], [3, 2, 4, 2], [3, 3, 2, 1], [2, 3, 3, 3], [2, 2, 3, 3],
+    ]
+    if not quick:
+        classes += [[3, 3, 3, 3], [4, 4, 4], [2, 3, 4, 6], [4, 4, 2, 2]]
+    for lens in classes:
+        D = len(lens)
+        for trial in range(2):
+            names = list(range(D)) if trial == 0 else rng.sample(range(8), D)
+            base = tbase(lens, names, off=rng.randrange(-50, 50))
+            for perm in itertools.permutations(names):
+                yield sx([13, 22, base, list(perm)])
+            if D >= 1:
+                bad = list(names); bad[rng.randrange(D)] = FOREIGN
+                yield sx([13, 22, base, bad])
+            if D >= 2:
+                dup = list(names); dup[1] = dup[0]
+                yield sx([13, 22, base, dup])
+    # D = 5, 6 sampled (cubes and near-cubes included)
+    for D in (5, 6):
+        for _ in range(10 if quick else 100):
+            lens = rng.choice([[2] * D, [1] * D, [rng.choice([1, 2, 2, 3]) for _ in range(D)]])
+            while elements(lens) > 150:
+                lens[rng.randrange(D)] = 1
+            names = rng.sample(range(10), D)
+            dims = list(names); rng.shuffle(dims)
+            yield sx([13, 22, tbase(lens, names, off=rng.randrange(-20, 20)), dims])
+
+
 def over_view_cases(rng, quick):
     """(13 30 sub term ..): the TensorView transformations / equality / similarity with ANY view of
     the C02 algebra as the source (term language and generators of tools/props/c02.py: every
@@ -346,6 +539,14 @@ def over_view_cases(rng, quick):
         if D >= 1 and rng.random() < 0.2:
             yield sx([13, 30, rng.choice([1, 2]), t, [FOREIGN] + names[1:]])
         r = rng.random()
+        # the mutable methods THROUGH the view (only terms with a mutable face; the harness and the
+        # model both answer bad-case for a term entered through a shared reference, which the
+        # generator therefore filters)
+        if not read_only(t):
+            if rng.random() < 0.5:
+                yield sx([13, 30, 10, t, rng.randrange(-5, 6), rng.randrange(-9, 10)])
+            else:
+                yield sx([13, 30, 11, t])
         if r < 0.35:
             yield sx([13, 30, 8, t, rng.randrange(-5, 6), rng.randrange(-9, 10)])
         elif r < 0.7:
@@ -374,6 +575,24 @@ def over_view_cases(rng, quick):
         else:
             right = c02.leaf(t[1] if t[0] == 0 else 1, [l for _, l in sh], names)
         yield sx([13, 30, 20, t, right])
+
+
+def read_only(t):
+    """a C02 term entered through a shared reference somewhere: (11 t 4), or a convenience constructor
+    taking `&self` (via 3 / 4) - same test as term_read_only in Run/RunC13.v"""
+    if not isinstance(t, list) or not t or not isinstance(t[0], int):
+        return False
+    if t[0] == 11 and len(t) == 3 and isinstance(t[2], int):
+        return t[2] == 4 or read_only(t[1])
+    if t[0] == 9 and len(t) == 5 and isinstance(t[1], list):
+        return any(read_only(x) for x in t[1])
+    if t[0] == 10 and len(t) == 4 and isinstance(t[1], list):
+        return any(read_only(x) for x in t[1])
+    if len(t) == 4 and isinstance(t[3], int):
+        return t[3] in (3, 4) or read_only(t[1])
+    if len(t) >= 2:
+        return read_only(t[1])
+    return False
 
 
 def nontrivial(case, model_out):
